@@ -27,3 +27,33 @@ pub fn declared_len_checked(input: &[u8]) -> Result<Vec<u8>, String> {
     }
     Ok(input[8..8 + n].to_vec())
 }
+/// C12 fixtures: length-prefixed vector of 32-byte elements
+pub fn vec_reader_unchecked(input: &[u8]) -> Result<Vec<[u8; 32]>, String> {
+    if input.len() < 8 {
+        return Err("short".to_string());
+    }
+    let len = u64::from_le_bytes(input[0..8].try_into().unwrap()) as usize;
+    let mut res = Vec::new();
+    for i in 0..len {
+        let mut e = [0u8; 32];
+        e.copy_from_slice(&input[8 + 32 * i..8 + 32 * (i + 1)]);
+        res.push(e);
+    }
+    Ok(res)
+}
+pub fn vec_reader_checked(input: &[u8]) -> Result<Vec<[u8; 32]>, String> {
+    if input.len() < 8 {
+        return Err("short".to_string());
+    }
+    let len = u64::from_le_bytes(input[0..8].try_into().unwrap()) as usize;
+    if len > (input.len() - 8) / 32 {
+        return Err("declared length exceeds input".to_string());
+    }
+    let mut res = Vec::new();
+    for i in 0..len {
+        let mut e = [0u8; 32];
+        e.copy_from_slice(&input[8 + 32 * i..8 + 32 * (i + 1)]);
+        res.push(e);
+    }
+    Ok(res)
+}
